@@ -151,6 +151,7 @@ Record pcfg := {
   p_server_host : string;      (* host[:port] of the server URL *)
   p_host_is_name : bool;       (* Server.addrIsHostName *)
   p_keep_host : bool;
+  p_fail_codes : list Z;       (* pool failureCodes: the Proxy reports resultFailureCode, the pipeline ends there *)
   p_minlen : option Z;         (* compression.minLength; None = no compression *)
   p_ra : adapt;                (* RequestAdaptor *)
   p_rs : adapt                 (* ResponseAdaptor *)
@@ -245,6 +246,8 @@ Definition forward (q : quirks) (f : fns) (c : pcfg) (r : creq) : req_result :=
           end
       end
   end.
+
+Definition failure_code (c : pcfg) (status : Z) : bool := existsb (Z.eqb status) (p_fail_codes c).
 
 (** ** response half *)
 Inductive stage :=
@@ -346,7 +349,11 @@ Definition respond (q : quirks) (f : fns) (c : pcfg) (req_headers : headers) (ad
       match build_response q f c req_headers r0 with
       | Fail500 => Some (failure 500)
       | Panicked => None
-      | Ok r => Some (write_out (response_adaptor q f (p_rs c) r))
+      | Ok r =>
+          (* a status listed in failureCodes makes the Proxy return a result: the filters
+             after it (the ResponseAdaptor) do not run, the backend's response goes out as it is *)
+          if failure_code c (rs_status r) then Some (write_out r)
+          else Some (write_out (response_adaptor q f (p_rs c) r))
       end
   end.
 
@@ -430,6 +437,9 @@ Definition step (q : quirks) (f : fns) (c : pcfg) (e : hedit) (s : cache_spec)
                       | Fail500 => (Answered (failure 500) (Some br), st)
                       | Panicked => (NoResponse (Some br), st)
                       | Ok r1 =>
+                          (* failure code: neither the later filters nor memoryCache.Store are reached *)
+                          if failure_code c (rs_status r1) then (Answered (write_out r1) (Some br), st)
+                          else
                           (Answered (finish q f c e r1) (Some br),
                            if storable s (cq_method r) h r1 then (key, entry_of r1) :: st else st)
                       end
